@@ -126,7 +126,7 @@ class Ctx:
         for _ in range(6):
             changed = False
             # longest aliased prefix ending before a '.'
-            pos = [i for i, ch in enumerate(path) if ch == '.']
+            pos = [i for i, ch in enumerate(path) if ch in '.[']
             for i in reversed(pos):
                 pre = path[:i]
                 v = self.st.scal.get(pre)
@@ -494,6 +494,8 @@ class Exec:
                     self.logw(('s', p))
                     self.frame_scalar(st, p)
                 return
+        if isinstance(l, PtrV) and l.region is None and isinstance(v, PtrV) and v.region is None:
+            return      # member of type std::nullptr_t (the OpenCL handle in this build): assigning nullptr changes nothing
         raise ExtractionError(f'store to {l} of {v}')
 
     def coerce(self, v, ct):
@@ -1169,6 +1171,15 @@ class Exec:
                 v = items[i] if i < len(items) else (IntV(I(0), lct) if lct.kind == 'int' else RealV(R(0), lct))
                 f[nm] = self.conv_to(v, lct)
             return StructV(pod, f)
+        if ct.kind == 'class' and class_kind(ct.name) == 'stdarray':
+            flat = items[0] if len(items) == 1 and isinstance(items[0], list) else items
+            if flat and all(isinstance(v, ObjRef) for v in flat):
+                # std::array of (smart) pointers built from a braced list: element i refers to the i-th object
+                self.tmpcount = getattr(self, 'tmpcount', 0) + 1
+                name = f'tmp:array{self.tmpcount}'
+                for i_, v in enumerate(flat):
+                    st.scal[f'{name}[{i_}]'] = v
+                return ObjRef(name, ct.name)
         return items
 
     def conv_to(self, v, ct):
